@@ -67,7 +67,7 @@ static void state_check(StateSnap *s)
 
 int mon_state_violation(char *what, size_t n)
 {
-	if (!g_state_viol[0] && g_net_violation[0]) snprintf(g_state_viol, sizeof(g_state_viol), "field=send_overrun %s", g_net_violation);
+	if (!g_state_viol[0] && g_net_violation[0]) snprintf(g_state_viol, sizeof(g_state_viol), "field=%s %s", g_net_violation_tag, g_net_violation);
 	if (!g_state_viol[0]) return 0;
 	snprintf(what, n, "%s", g_state_viol);
 	return 1;
